@@ -462,3 +462,18 @@ Proof.
   - intros n old x Lr Ll. rewrite forallb_forall in Acc. specialize (Acc (n, x) (lookup_In _ _ _ Ll)).
     cbn in Acc. exact (ref_acceptable_ff _ _ _ _ _ W Acc Lr).
 Qed.
+
+(* non-vacuity: a three-branch cascade, a feature branch with one commit, merged down the cascade *)
+Example flow_example :
+  let s0 := [mkCommit [] false; mkCommit [0] false; mkCommit [1] false; mkCommit [2] false;   (* dev1 dev2 dev3 tips 1 2 3 *)
+             mkCommit [1] false;                                                              (* feature on dev1 *)
+             mkCommit [2; 4] true; mkCommit [3; 5] true] in                                   (* w/2, w/3 *)
+  let c0 := mkClone s0 [(1, 1); (2, 2); (3, 3); (10, 4); (12, 5); (13, 6)] in
+  let order := [(1, 2); (2, 3); (1, 3)] in
+  incl_b c0 order = true /\
+  match merge_integration [Octopus; Consecutive] c0 [(1, 10); (2, 12); (3, 13)] with
+  | Some c1 => incl_b c1 order = true /\ lookup (refs c1) 1 = Some 4 /\ lookup (refs c1) 2 = Some 5 /\
+               lookup (refs c1) 3 = Some 8 /\ length (st c1) = 9
+  | None => False
+  end.
+Proof. vm_compute. repeat split. Qed.
